@@ -85,3 +85,153 @@ Proof.
   destruct (existsb (fun e => answers e x y) eqs) eqn:E; [|reflexivity].
   apply existsb_exists in E. destruct E as (e & Hi & He). rewrite (H e Hi) in He. discriminate.
 Qed.
+
+(* ================= combinator trees ================= *)
+Section CtreeInd.
+  Variable L : Type.
+  Variable P : ctree L -> Prop.
+  Hypothesis Hl : forall l, P (TLeaf l).
+  Hypothesis Ha : forall ts, Forall P ts -> P (TAnd ts).
+  Hypothesis Ho : forall ts, Forall P ts -> P (TOr ts).
+  Fixpoint ctree_ind' (t : ctree L) : P t :=
+    match t with
+    | TLeaf l => Hl l
+    | TAnd ts => Ha ts ((fix go (l : list (ctree L)) : Forall P l :=
+                           match l with [] => Forall_nil P | a :: r => Forall_cons a (ctree_ind' a) (go r) end) ts)
+    | TOr ts => Ho ts ((fix go (l : list (ctree L)) : Forall P l :=
+                          match l with [] => Forall_nil P | a :: r => Forall_cons a (ctree_ind' a) (go r) end) ts)
+    end.
+End CtreeInd.
+
+Section Trees.
+  Variable L : Type.
+  Variable f : L -> vcmp.
+
+  (* a tree APPLIES to (x, y) when some leaf anywhere in it answers *)
+  Definition tree_applies (t : ctree L) (x y : cval) : bool :=
+    existsb (fun l => answers (f l) x y) (tree_leaves t).
+
+  (* the verdict as a formula over the applicable sub-trees: a conjunction skips the members that do
+     not apply, a disjunction only counts members that apply *)
+  Fixpoint tree_says (t : ctree L) (x y : cval) : bool :=
+    match t with
+    | TLeaf l => says (f l) x y
+    | TAnd ts => forallb (fun c => negb (tree_applies c x y) || tree_says c x y) ts
+    | TOr ts => existsb (fun c => tree_applies c x y && tree_says c x y) ts
+    end.
+
+  Lemma existsb_flat_map {A B} (g : B -> bool) (h : A -> list B) (l : list A) :
+    existsb g (flat_map h l) = existsb (fun a => existsb g (h a)) l.
+  Proof.
+    induction l as [|a r IH]; [reflexivity|]. cbn [flat_map existsb]. rewrite existsb_app, IH. reflexivity.
+  Qed.
+
+  Lemma forallb_map_ext {A B} (g : B -> bool) (h : A -> B) (k : A -> bool) (l : list A) :
+    Forall (fun a => g (h a) = k a) l -> forallb g (map h l) = forallb k l.
+  Proof. induction 1 as [|a r Ha _ IH]; [reflexivity|]. cbn [map forallb]. rewrite Ha, IH. reflexivity. Qed.
+  Lemma existsb_map_ext {A B} (g : B -> bool) (h : A -> B) (k : A -> bool) (l : list A) :
+    Forall (fun a => g (h a) = k a) l -> existsb g (map h l) = existsb k l.
+  Proof. induction 1 as [|a r Ha _ IH]; [reflexivity|]. cbn [map existsb]. rewrite Ha, IH. reflexivity. Qed.
+
+  (* THE theorem on combinations: for every tree of ValueAnd / ValueOr over any leaf comparers, the
+     (equal, ok) pair is (the formula over the applicable members, some leaf applies) *)
+  Theorem tree_verdict : forall (t : ctree L) x y,
+    tree_cmp f t x y = (tree_says t x y, tree_applies t x y).
+  Proof.
+    intros t x y. induction t as [l|ts IH|ts IH] using ctree_ind'.
+    - cbn [tree_cmp tree_says]. unfold tree_applies, says, answers. cbn [tree_leaves existsb].
+      rewrite orb_false_r. destruct (f l x y); reflexivity.
+    - cbn [tree_cmp tree_says]. rewrite value_and_is_conj. unfold tree_applies at 2. cbn [tree_leaves].
+      rewrite existsb_flat_map. f_equal.
+      + apply forallb_map_ext. eapply Forall_impl; [|exact IH]. intros c Hc. cbn beta in Hc |- *.
+        unfold answers, says. rewrite Hc. reflexivity.
+      + apply existsb_map_ext. eapply Forall_impl; [|exact IH]. intros c Hc. cbn beta in Hc |- *.
+        unfold answers. rewrite Hc. reflexivity.
+    - cbn [tree_cmp tree_says]. rewrite value_or_is_disj. unfold tree_applies at 2. cbn [tree_leaves].
+      rewrite existsb_flat_map. f_equal.
+      + apply existsb_map_ext. eapply Forall_impl; [|exact IH]. intros c Hc. cbn beta in Hc |- *.
+        unfold answers, says. rewrite Hc. reflexivity.
+      + apply existsb_map_ext. eapply Forall_impl; [|exact IH]. intros c Hc. cbn beta in Hc |- *.
+        unfold answers. rewrite Hc. reflexivity.
+  Qed.
+
+  Corollary tree_answers_iff_some_leaf : forall t x y,
+    answers (tree_cmp f t) x y = true <-> exists l, In l (tree_leaves t) /\ answers (f l) x y = true.
+  Proof. intros. unfold answers at 1. rewrite tree_verdict. cbn [snd]. apply existsb_exists. Qed.
+
+  (* nested conjunctions flatten: a tree built of ValueAnd only accepts iff EVERY applicable leaf
+     accepts; nested disjunctions: iff SOME applicable leaf accepts *)
+  Fixpoint all_and (t : ctree L) : bool :=
+    match t with TLeaf _ => true | TAnd ts => forallb all_and ts | TOr _ => false end.
+  Fixpoint all_or (t : ctree L) : bool :=
+    match t with TLeaf _ => true | TOr ts => forallb all_or ts | TAnd _ => false end.
+
+  Lemma forallb_in_ext {A} (g k : A -> bool) (l : list A) :
+    (forall a, In a l -> g a = k a) -> forallb g l = forallb k l.
+  Proof.
+    induction l as [|a r IH]; intros H; [reflexivity|]. cbn [forallb].
+    rewrite (H a (or_introl eq_refl)), IH; [reflexivity|]. intros b Hb. apply H. right. exact Hb.
+  Qed.
+
+  Lemma forallb_flat_map {A B} (g : B -> bool) (h : A -> list B) (l : list A) :
+    forallb g (flat_map h l) = forallb (fun a => forallb g (h a)) l.
+  Proof.
+    induction l as [|a r IH]; [reflexivity|]. cbn [flat_map forallb]. rewrite forallb_app, IH. reflexivity.
+  Qed.
+
+  Lemma not_applies_all t x y :
+    tree_applies t x y = false -> forallb (fun l => negb (answers (f l) x y) || says (f l) x y) (tree_leaves t) = true.
+  Proof.
+    unfold tree_applies. induction (tree_leaves t) as [|l r IH]; [reflexivity|]. cbn [existsb forallb]. intros H.
+    apply orb_false_iff in H. destruct H as [H1 H2]. rewrite H1, (IH H2). reflexivity.
+  Qed.
+  Lemma not_applies_none t x y :
+    tree_applies t x y = false -> existsb (fun l => answers (f l) x y && says (f l) x y) (tree_leaves t) = false.
+  Proof.
+    unfold tree_applies. induction (tree_leaves t) as [|l r IH]; [reflexivity|]. cbn [existsb]. intros H.
+    apply orb_false_iff in H. destruct H as [H1 H2]. rewrite H1, (IH H2). reflexivity.
+  Qed.
+
+  Lemma existsb_in_ext {A} (g k : A -> bool) (l : list A) :
+    (forall a, In a l -> g a = k a) -> existsb g l = existsb k l.
+  Proof.
+    induction l as [|a r IH]; intros H; [reflexivity|]. cbn [existsb].
+    rewrite (H a (or_introl eq_refl)), IH; [reflexivity|]. intros b Hb. apply H. right. exact Hb.
+  Qed.
+
+  Theorem and_tree_flattens : forall t x y, all_and t = true ->
+    negb (tree_applies t x y) || tree_says t x y
+    = forallb (fun l => negb (answers (f l) x y) || says (f l) x y) (tree_leaves t).
+  Proof.
+    intros t x y. induction t as [l|ts IH|ts IH] using ctree_ind'; intros A.
+    - unfold tree_applies. cbn [tree_leaves existsb forallb tree_says]. rewrite orb_false_r, andb_true_r. reflexivity.
+    - cbn [all_and] in A. cbn [tree_says].
+      assert (R : forallb (fun c => negb (tree_applies c x y) || tree_says c x y) ts
+                  = forallb (fun l => negb (answers (f l) x y) || says (f l) x y) (tree_leaves (TAnd ts))).
+      { cbn [tree_leaves]. rewrite forallb_flat_map. apply forallb_in_ext. intros c Hc.
+        rewrite Forall_forall in IH. rewrite forallb_forall in A. apply (IH c Hc (A c Hc)). }
+      rewrite R. destruct (tree_applies (TAnd ts) x y) eqn:E; [reflexivity|].
+      rewrite (not_applies_all _ x y E). reflexivity.
+    - discriminate A.
+  Qed.
+
+  Theorem or_tree_flattens : forall t x y, all_or t = true ->
+    tree_applies t x y && tree_says t x y
+    = existsb (fun l => answers (f l) x y && says (f l) x y) (tree_leaves t).
+  Proof.
+    intros t x y. induction t as [l|ts IH|ts IH] using ctree_ind'; intros A.
+    - unfold tree_applies. cbn [tree_leaves existsb tree_says]. rewrite !orb_false_r. reflexivity.
+    - discriminate A.
+    - cbn [all_or] in A. cbn [tree_says].
+      assert (R : existsb (fun c => tree_applies c x y && tree_says c x y) ts
+                  = existsb (fun l => answers (f l) x y && says (f l) x y) (tree_leaves (TOr ts))).
+      { cbn [tree_leaves]. rewrite existsb_flat_map. apply existsb_in_ext. intros c Hc.
+        rewrite Forall_forall in IH. rewrite forallb_forall in A. apply (IH c Hc (A c Hc)). }
+      rewrite R. destruct (tree_applies (TOr ts) x y) eqn:E; [reflexivity|].
+      rewrite (not_applies_none _ x y E). reflexivity.
+  Qed.
+End Trees.
+Arguments tree_applies {L} f t x y.
+Arguments tree_says {L} f t x y.
+Arguments all_and {L} t.
+Arguments all_or {L} t.
